@@ -6,10 +6,11 @@ from pyvc.harness import Spec, IntK, BoolK, StrK, BlobK, ChoiceK, Outcome
 from pyvc.values import *  # noqa
 from contracts.lib import *  # noqa
 from pyvc.models_ext import unwrap_key
+from contracts import C06
 
 LEVEL = "other"
 MANIFEST_ENTRY = {
-    "text": "Health classification (Checker._format_results): for every per-server result set over up to 3 servers x 3 share numbers (all 512 verified-share distributions, corrupt/incompatible sets present) and EVERY needed/total pair, healthy <=> the number of DISTINCT verified share numbers equals N, recoverable <=> it is >= k, count_shares_good is that number, and corrupt or incompatible shares are never counted as good. Verifier: get_all_blockhashes pins the block hash tree's root to this share's VALIDATED leaf of the share hash tree before it accepts any hash supplied by the share (found missing on the pinned tree: D23, fixed), and a native run over real hash trees confirms that every share with one block and its block hash tree rewritten consistently is refused while genuine shares are accepted; ValidatedReadBucketProxy._got_data: block data is returned only after block_hash_tree.set_hashes(leaves={blocknum: block_hash(data)}) returned normally, the block tree's root was taken from the share hash tree leaf of this share (after share_hash_tree.set_hashes when hashes were still needed), and every hash-tree failure surfaces as BadOrMissingHash -- the hash trees themselves are under contract in C35. Repair: Repairer.start re-encodes with (k, N) of the verify cap and the segment size delivered by the file node, and CiphertextFileNode.get_segment_size delivers DownloadNode.get_segsize() (the value from the validated UEB), never a guess.",
+    "text": "Health classification (Checker._format_results): for every per-server result set over up to 3 servers x 3 share numbers (all 512 verified-share distributions, corrupt/incompatible sets present) and EVERY needed/total pair, healthy <=> the number of DISTINCT verified share numbers equals N, recoverable <=> it is >= k, count_shares_good is that number, and corrupt or incompatible shares are never counted as good. Verifier: get_all_blockhashes pins the block hash tree's root to this share's VALIDATED leaf of the share hash tree before it accepts any hash supplied by the share (found missing on the pinned tree: D23, fixed), and a native run over real hash trees confirms that every share with one block and its block hash tree rewritten consistently is refused while genuine shares are accepted; ValidatedReadBucketProxy._got_data: block data is returned only after block_hash_tree.set_hashes(leaves={blocknum: block_hash(data)}) returned normally, the block tree's root was taken from the share hash tree leaf of this share (after share_hash_tree.set_hashes when hashes were still needed), and every hash-tree failure surfaces as BadOrMissingHash -- the hash trees themselves are under contract in C35. Repair: Repairer.start re-encodes with (k, N) of the verify cap and the segment size delivered by the file node, and CiphertextFileNode.get_segment_size delivers DownloadNode.get_segsize() (the value from the validated UEB), never a guess; the share map merged into the repair results lists exactly the shares the encoder placed (CHKUploader._encrypted_done, contract shared with C06), so a share that was allocated but not written is not counted as good.",
     "note": "The full verify/repair pipeline (Deferred chains through ValidatedExtendedURIProxy, CHKUploader, the storage servers) is not under contract: 'repaired shares validate under the original read-cap' and 'repair never alters good shares' are only covered at the three call sites named above. Hash trees are replaced by contract stubs (C35).",
     "technique": "contract-based deductive verification (pyvc VCs + z3, callee contracts for the hash trees); share distributions enumerated up to a bound",
 }
@@ -399,8 +400,8 @@ class RepairerStart(Spec):
         from pyvc.models_tahoe import DStub
         self._started = []
         d = DStub("pending")
-        vcap = stub("verifycap", needed_shares=a["k"], total_shares=a["n"])
-        node = stub("filenode", get_segment_size=lambda I_, a_, k_: d, get_verify_cap=lambda I_, a_, k_: vcap)
+        vcap = stub("verifycap", needed_shares=a["k"], total_shares=a["n"], size=z3.Int("file_size"))
+        node = stub("filenode", get_segment_size=lambda I_, a_, k_: d, get_verify_cap=lambda I_, a_, k_: vcap, get_size=lambda I_, a_, k_: z3.Int("file_size"))
         rep = SObj(self.module().Repairer, {"_filenode": node, "_storage_broker": "sb", "_secret_holder": "sh", "_offset": 0})
         r = I.call_value(self.target(I), [rep], {})
         res = None
@@ -415,17 +416,17 @@ class RepairerStart(Spec):
         rep = out.post["rep"]
         ep = rep.fields.get("_encodingparams")
         ok = isinstance(ep, tuple) and len(ep) == 4
-        g = [("start-returns-the-segment-size-deferred-chain", z3.BoolVal(out.post["returned"] is out.post["d"])),
+        g = [("the-repair-waits-for-the-nodes-segment-size", z3.BoolVal(out.post["returned"] is out.post["d"])),
              ("encoding-parameters-are-set", z3.BoolVal(ok))]
         if ok:
-            g += [("k-is-the-caps-needed-shares", Z(ep[0]) == Z(a["k"])), ("N-is-the-caps-total-shares", Z(ep[2]) == Z(a["n"])),
-                  ("segment-size-is-the-one-the-node-delivered", Z(ep[3]) == Z(a["segsize"])),
+            g += [("k-is-the-caps-needed-shares", (Z(ep[0]) == Z(a["k"])) if is_intlike(ep[0]) else z3.BoolVal(False)), ("N-is-the-caps-total-shares", (Z(ep[2]) == Z(a["n"])) if is_intlike(ep[2]) else z3.BoolVal(False)),
+                  ("segment-size-is-the-one-the-node-delivered", (Z(ep[3]) == Z(a["segsize"])) if is_intlike(ep[3]) else z3.BoolVal(False)),
                   ("the-upload-is-started-with-the-repairer-as-uploadable", z3.BoolVal(out.post["started"] == [rep]))]
         return g
 
     def canary(self, I, a, out):
         ep = out.post["rep"].fields.get("_encodingparams")
-        return [("canary", Z(ep[3]) == 131072)]
+        return [("canary", (Z(ep[3]) == 131072) if (isinstance(ep, tuple) and is_intlike(ep[3])) else z3.BoolVal(True))]
 
 
 class GetSegmentSize(Spec):
@@ -455,4 +456,4 @@ class GetSegmentSize(Spec):
 
 
 def contracts(tier):
-    return [FormatResults(), GotData(), AllBlockHashes(), RepairerStart(), GetSegmentSize()]
+    return [FormatResults(), GotData(), AllBlockHashes(), RepairerStart(), GetSegmentSize(), C06.EncryptedDone()]
